@@ -151,7 +151,26 @@ func vnW(mode int) {
 				vAssert(!wasInTag, "content-token-inside-tag")
 			}
 			if tmpl != 0 {
-				vAssert(l.HasTemplate() == vnContains(data, l.tmplBegin), "hastemplate")
+				has := vnContains(data, l.tmplBegin)
+				if l.HasTemplate() {
+					vAssert(has, "hastemplate-without-delimiter")
+				} else {
+					// the label names the token kind so that a finding for one kind cannot hide another
+					switch tt {
+					case CommentToken:
+						vAssert(!has, "template-not-flagged-in-comment")
+					case DoctypeToken:
+						vAssert(!has, "template-not-flagged-in-doctype")
+					case EndTagToken:
+						vAssert(!has, "template-not-flagged-in-endtag")
+					case SVGToken, MathToken, XMLToken:
+						vAssert(!has, "template-not-flagged-in-foreign-content")
+					case StartTagCloseToken, StartTagVoidToken:
+						vAssert(!has, "template-not-flagged-in-tag-close")
+					default:
+						vAssert(!has, "template-not-flagged")
+					}
+				}
 			} else {
 				vAssert(!l.HasTemplate(), "hastemplate-without-templates")
 			}
